@@ -147,6 +147,7 @@ class Net:
         self.sock_cfg = cfg.get("sock", {})  # default per-socket fault plan
         self.sock_cfgs = cfg.get("socks", {})  # per socket index overrides
         self.selectors = []
+        self.default_socket_timeout = cfg.get("default_socket_timeout")
 
     def count(self, name, n=1):
         self.counters[name] = self.counters.get(name, 0) + n
@@ -224,7 +225,7 @@ class SimSocket:
         net.sockets.append(self)
         self.fd = net.next_fd
         net.next_fd += 1
-        self.timeout = None
+        self.timeout = net.default_socket_timeout  # what socket.setdefaulttimeout() of the application would give
         self.opts = []
         self.closed = False
         self.conn = None
